@@ -7,8 +7,8 @@ ENTRY = {
          "reset_ops": ["new"],
          "n_quick": 4500, "seeds_quick": 2, "n_thorough": 60000, "seeds_thorough": 6},
     ],
-    "level_text": "Kernel-checked Lean theorems (Mathlib Lagrange interpolation) over an arbitrary scalar field and arbitrary modules G1, G2, for every threshold t, every dealer polynomial of degree < t, every n and every identifier set S with |S| >= t and pairwise distinct identifiers (no bound): any qualified set recovers the secret p(0) and the group public key, the Lagrange combination of the partial signatures over one message is exactly the undivided key's signature and satisfies the (idealised) verification equation under the group key, independent of S; replacing one contribution by a signature of a wrong scalar, of another share (wrong index) or over another message makes the combination differ from the group signature and fail verification, under explicit side conditions (identifiers non-zero, H(m) != 0, g1 != 0, s' != p(j) / p(k) != p(j) / p(j) != 0 and H(m') != H(m)). The model is tied to tbls/herumi.go by differential correspondence: shares recomputed bit-for-bit in Lean from the recorded byte stream of ThresholdSplitInsecure, CSPRNG ThresholdSplit shares checked to lie on a degree < t polynomial through the secret, Lagrange recovery bit-equal to RecoverSecret for every qualified subset (exhaustive n <= 7, sampled to n = 10), and every group-level outcome (SecretToPublicKey, RecoverPubkey, ThresholdAggregate vs Sign, Verify; every single substitution at every position) equal to the outcome predicted from the scalar combination.",
-    "level_note": "Trusted: Lean kernel + Mathlib v4.33.0 (LinearAlgebra.Lagrange, Algebra.CharP.Basic), the Go correspondence harness and line driver. Not covered: herumi's field/curve/pairing code and hash-to-curve (exercised, not modelled); primality of r is not proved in Lean (Model/Fr.lean is compared bit-for-bit with herumi instead).",
+    "level_text": "Kernel-checked Lean theorems (Mathlib Lagrange interpolation) over an arbitrary scalar field and arbitrary modules G1, G2, for every threshold t, every dealer polynomial of degree < t, every n and every identifier set S with |S| >= t and pairwise distinct identifiers (no bound): any qualified set recovers the secret p(0) and the group public key, the Lagrange combination of the partial signatures over one message is exactly the undivided key's signature and satisfies the (idealised) verification equation under the group key, independent of S; replacing one contribution by a signature of a wrong scalar, of another share (wrong index) or over another message makes the combination differ from the group signature and fail verification, under explicit side conditions (identifiers non-zero, H(m) != 0, g1 != 0, s' != p(j) / p(k) != p(j) / p(j) != 0 and H(m') != H(m)). The executable scalar model (Model/Fr.lean: Horner evaluation, Fermat inversion, Lagrange recovery on Nat representatives mod r) is proved to compute the abstract objects in ZMod r (exec_split_spec, exec_recover_secret: every coefficient list, every identifier list; hypothesis: r prime). The model is tied to tbls/herumi.go by differential correspondence: shares recomputed bit-for-bit in Lean from the recorded byte stream of ThresholdSplitInsecure, CSPRNG ThresholdSplit shares checked to lie on a degree < t polynomial through the secret, Lagrange recovery bit-equal to RecoverSecret for every qualified subset (exhaustive n <= 7, sampled to n = 10), and every group-level outcome (SecretToPublicKey, RecoverPubkey, ThresholdAggregate vs Sign, Verify; every single substitution at every position) equal to the outcome predicted from the scalar combination.",
+    "level_note": "Trusted: Lean kernel + Mathlib v4.33.0 (LinearAlgebra.Lagrange, Algebra.CharP.Basic), the Go correspondence harness and line driver. Not covered: herumi's field/curve/pairing code and hash-to-curve (exercised, not modelled); primality of r is not proved in Lean: it is the hypothesis `Fact (Nat.Prime Fr.r)` of exec_recover_secret (Model/Fr.lean is additionally compared bit-for-bit with herumi).",
     "trusted_base": [
         "model CharonV/Model/Fr.lean (Fr arithmetic on Nat, Horner evaluation, Lagrange interpolation, model of ThresholdSplitInsecure / RecoverSecret) tied to tbls/herumi.go by bit-for-bit correspondence on every share and every recovered secret",
         "BLS group operations are linear in the scalar (SecretToPublicKey(s) = s*g1, Sign(s,m) = s*H(m), ThresholdAggregate/RecoverPubkey = Lagrange combination in the group): not proved about herumi; checked on every sample by comparing each group-level outcome with the outcome predicted from the scalar combination",
